@@ -24,7 +24,9 @@ U16 = ["U16a", "U16b", "U16c", "U16d", "U16e", "U16f", "U16g", "U16h"]
 for u in U16:
     UNIT_DEFAULT_PROPS[u] = ["C04"]
 
-RUNTIME = ["U6", "U7", "U8"] + U9
+UNIT_DEFAULT_PROPS["U6b"] = ["C04"]
+
+RUNTIME = ["U6", "U6b", "U7", "U8"] + U9
 
 # property -> units run (all feature sets of the unit), units whose panic-freedom counts for it
 PROPS = {
@@ -32,8 +34,8 @@ PROPS = {
     "C02": {"units": ["U3", "U4", "U6", "U7", "U8"] + U9, "safety_units": ["U6", "U7"]},
     "C03": {"units": ["U3", "U4", "U6", "U7", "U8"] + U9 + U16},
     "C15": {"units": ["U6", "U16b", "U16d", "U16f", "U16h"]},
-    "C04": {"units": ["U7"] + U9 + U16, "safety_units": ["U6", "U7"] + U9 + U16},
-    "C05": {"units": ["U8"], "safety_units": ["U8"]},
+    "C04": {"units": ["U6b", "U7"] + U9 + U16, "safety_units": ["U6", "U6b", "U7"] + U9 + U16},
+    "C05": {"units": ["U6b", "U8"], "safety_units": ["U8"]},
     "C06": {"units": ["U2", "U4", "U6", "U7", "U8"]},
     "C07": {"units": ["U9c", "U9d", "U9g", "U9h", "U16g", "U16h"]},
     "C08": {"units": ["U10"] + U9},
